@@ -177,6 +177,10 @@ func (u *Unit) oblige(st *State, name, kind, goal string, props []string, cl *Cl
 		u.obls[full] = o
 		u.oblOrder = append(u.oblOrder, full)
 	}
+	// a goal whose conjuncts all occur among the path facts is discharged syntactically
+	if goal != "true" && syntacticallyImplied(st.pc, goal) {
+		goal = "true"
+	}
 	if len(o.Instances) > 400 {
 		u.fail("too many path instances for obligation %s (VC size cap)", full)
 	}
@@ -203,6 +207,12 @@ func (u *Unit) cover(st *State, name string, desc string) {
 func (u *Unit) heapTerm(st *State, key, sort string) string {
 	if t, ok := st.heap[key]; ok {
 		return t
+	}
+	if sort == "" {
+		sort = u.sortOfHeapKey(key)
+		if sort == "" {
+			u.fail("internal: heap key %s has no sort", key)
+		}
 	}
 	name := "H_" + sanitize(key) + "_0"
 	u.reg.declare(name, nil, sort)
@@ -322,6 +332,14 @@ func (p *Program) fieldType(key string) types.Type {
 
 // heap keys:  F:<struct key>.<field>   MD:<K sort>   MV:<K sort>|<V sort>   C:<sort>   G:<pkg.var>
 func (u *Unit) sortOfHeapKey(key string) string {
+	s := u.sortOfHeapKey0(key)
+	if s != "" {
+		u.reg.ensureSort(s, modsetReg)
+	}
+	return s
+}
+
+func (u *Unit) sortOfHeapKey0(key string) string {
 	switch {
 	case strings.HasPrefix(key, "MD:"):
 		return "(Array Int (Array " + key[3:] + " Bool))"
@@ -636,4 +654,75 @@ func sortedKeys(m map[string]bool) []string {
 	}
 	sort.Strings(out)
 	return out
+}
+
+func flattenAnd(t string, out map[string]bool) {
+	if strings.HasPrefix(t, "(and ") && strings.HasSuffix(t, ")") {
+		for _, p := range splitSexprs(t[5 : len(t)-1]) {
+			flattenAnd(p, out)
+		}
+		return
+	}
+	out[t] = true
+}
+
+func splitSexprs(s string) []string {
+	var parts []string
+	d := 0
+	start := -1
+	instr := false
+	for i := 0; i < len(s); i++ {
+		c := s[i]
+		if instr {
+			if c == '"' {
+				instr = false
+			}
+			continue
+		}
+		switch {
+		case c == '"':
+			instr = true
+			if start < 0 {
+				start = i
+			}
+		case c == '(':
+			if start < 0 {
+				start = i
+			}
+			d++
+		case c == ')':
+			d--
+		case c == ' ' || c == '\n':
+			if d == 0 && start >= 0 {
+				parts = append(parts, s[start:i])
+				start = -1
+			}
+		default:
+			if start < 0 {
+				start = i
+			}
+		}
+	}
+	if start >= 0 {
+		parts = append(parts, s[start:])
+	}
+	return parts
+}
+
+func syntacticallyImplied(pc []string, goal string) bool {
+	want := map[string]bool{}
+	flattenAnd(goal, want)
+	if len(want) == 0 {
+		return false
+	}
+	have := map[string]bool{}
+	for _, f := range pc {
+		flattenAnd(f, have)
+	}
+	for w := range want {
+		if !have[w] {
+			return false
+		}
+	}
+	return true
 }
